@@ -585,6 +585,35 @@ def anchors(ctx):
     return "\n".join(lines) + "\n"
 
 
+# ----------------------------------------------------------------------------- magic values
+def harvest_magic(repo):
+    """every short printable string literal and every numeric literal of norad's source (all of src/**/*.rs,
+    test modules included): values an edit may special-case. Regenerated on every run, so a constant that a
+    future edit introduces is tried as well."""
+    strs, nums = {}, {}
+    root = os.path.join(repo, "src")
+    for dp, _, fs in os.walk(root):
+        for f in sorted(fs):
+            if not f.endswith(".rs"):
+                continue
+            src = open(os.path.join(dp, f), encoding="utf-8", errors="replace").read()
+            for m in re.finditer(r'b?"((?:[^"\\\n]|\\.)*)"', src):
+                t = m.group(1)
+                if "\\" in t:
+                    try:
+                        t = t.encode("utf-8").decode("unicode_escape")
+                    except Exception:
+                        continue
+                if len(t) <= 48 and all(0x20 <= ord(c) < 0x7f for c in t):
+                    strs[t] = strs.get(t, 0) + 1
+            for m in re.finditer(r"(?<![\w.])(\d+(?:\.\d+)?(?:[eE][-+]?\d+)?)(?:_?[fiu](?:8|16|32|64|128|size))?(?![\w.])", src):
+                nums[m.group(1)] = nums.get(m.group(1), 0) + 1
+    # shortest first (constants are short; long ones are mostly messages), capped
+    ss = sorted(strs, key=lambda t: (len(t), t))[:1200]
+    ns = sorted(nums, key=lambda t: (len(t), t))[:400]
+    return {"strings": ss, "numbers": ns}
+
+
 # ----------------------------------------------------------------------------- run
 def _load_cases(path):
     return [json.loads(l) for l in open(path) if l.strip()]
@@ -754,7 +783,14 @@ def run(ctx, known, built):
                 batches.append(("corpus/C18/" + f, _load_cases(os.path.join(od, "cases.jsonl")), od))
     gd = os.path.join(out, "gen")
     os.makedirs(gd)
-    rc, o = sh([ctx.harness, "c18", "--tier", ctx.tier, "--seed", str(ctx.seed), "--out", gd], timeout=3000)
+    try:
+        magic = harvest_magic(driver.REPO)
+    except Exception as ex:
+        magic = {"strings": [], "numbers": []}
+        ctx.note("harvesting literals from the source failed: %r" % (ex,))
+    json.dump(magic, open(os.path.join(out, "magic.json"), "w"))
+    rc, o = sh([ctx.harness, "c18", "--tier", ctx.tier, "--seed", str(ctx.seed), "--out", gd,
+                "--magic", os.path.join(out, "magic.json")], timeout=3000)
     if rc != 0:
         ctx.disagreements.append({"what": "harness c18 failed", "output": o[-2000:]})
         return
@@ -798,7 +834,7 @@ def run(ctx, known, built):
                                           "document": rec["doc"], "loaded": rec["loaded"]})
             if rec.get("load") == "panic" or rec.get("save") == "panic":
                 ctx.disagreements.append({"what": "panic in save/load", "case": rec["i"], "msg": rec.get("msg"), "document": rec["doc"]})
-    SH = 150 if not ctx.thorough() else 500
+    SH = 210 if not ctx.thorough() else 500
     saved = [(k, sr) for k, sr in enumerate(allrecs) if sr[1].get("save") == "ok"]
     for b in range(0, len(saved), SH):
         part = saved[b:b + SH]
@@ -908,7 +944,10 @@ def run(ctx, known, built):
                                + len(set(json.dumps(pt) for _, pt, _ in pert[:len(loaded)])),
         "rule": "encoder side: generated documents (60% well-formed with every optional attribute present/absent, discrete and "
                 "hidden axes, all f32 classes, nested libs with every plist type; 15% with strings from the known classes; 25% "
-                "ill-formed in one or two ways) saved by norad, file parsed by expat and compared with the model's tree, loaded "
+                "ill-formed in one or two ways; every string / number drawn with probability 1/7 resp. 1/6 from the "
+                "literals harvested from norad's source at run time + a fixed list of typical defaults), plus a sweep with "
+                "one document per harvested string (every string field holds it) and per number (every number holds it), "
+                "saved by norad, file parsed by expat and compared with the model's tree, loaded "
                 "by norad and compared with the model's decode; non-trivial = well-formed document (save, re-read and load all "
                 "succeed and the full oracle applies), counted once per distinct document. Decoder side: well-formed saved trees with 1-2 local edits (dropped / "
                 "duplicated / swapped / renamed / unknown attributes and elements, replaced values, integer spellings), "
@@ -917,6 +956,7 @@ def run(ctx, known, built):
         "input_distribution": dict(stats, **dstats),
         "traces_validated_against_impl": stats["cases"] + dstats["perturbed"],
         "l1_float_checks": summ["l1_float_checks"],
+        "magic_values": {"strings": summ.get("magic_strings"), "numbers": summ.get("magic_numbers")},
         "observations": {"a plist date beyond year 9999 makes DesignSpaceDocument::save panic (plist::Date::to_xml_format)":
                          summ.get("obs_year_10000_date_save_panics")},
     })
